@@ -114,7 +114,7 @@ HOSTILE = [0x22, 0xFF, 0x0A, 0x5C, 0x0D, 0x00, 0x7F, 0x7D, 0x2C, 0x3A, 0x1B, 0x8
 INJECT = b'","z":"'
 
 
-PROFILES = {'quick': ('rot', 'inject'), 'thorough': ('rot', 'inject', 'newline', 'high')}
+PROFILES = {'quick': ('rot', 'inject', 'newline', 'high'), 'thorough': ('rot', 'inject', 'newline', 'high')}
 TIER = {'name': 'quick'}
 
 
@@ -197,6 +197,8 @@ def judge(ctx, kind, evs, w, text_lines, values=(), needles=(), text_too=True):
             n_text += 1
         for tag, detail in bad:
             fail(ctx, 'C13:%s:%s:%s:%s' % (kind, where, enc, tag), {'detail': detail, 'process': ev.proc}, seen)
+        if not bad:
+            ctx.passed += 1          # one event record judged well-formed on this witness
     ctx.witness_check('events-judged', lambda: n_json > 0 and (n_text > 0 or not text_too), sig='C13:harness:%s:no-events' % kind)
     return not seen
 
@@ -282,6 +284,8 @@ def decode_and_render(ctx, kind, w, body, present, values=(), needles=()):
     if present is not None:
         ctx.witness_check('decoded-object-in-event', lambda: bool(present(msg)), sig='C13:harness:%s:decoded-object-not-in-event' % kind,
                           info={'body': body.hex()})
+    if getattr(msg, 'IS_EOR', False) and not kind.startswith('eor:'):
+        kind = 'eor:via:' + kind      # an UPDATE with no route at all is an End-of-RIB marker: its own renderer
     evs = A.message_events(w, 2, msg, raw)
     return judge(ctx, kind, evs, w, update_lines(msg), values, needles)
 
@@ -486,9 +490,18 @@ def open_render(ctx, kind, w, body, values=(), needles=()):
     return judge(ctx, kind, evs, w, one_line, values, needles)
 
 
+CAP_FAMS = ((1, 1), (2, 1), (1, 128), (77, 9))     # the last one is no registered family
+
+
 def cap_shapes(code, th):
-    """name -> builder(ctx) -> value items of one capability"""
+    """name -> builder(ctx) -> value items of one capability.  Capabilities which key a dict by (afi, safi) get the
+    family from a concrete list (the solver picks it by fork; a symbolic dict key would be enumerated by value) and
+    every other octet symbolic; 'free' = short all-symbolic values (the truncation / length branches)."""
     top = 6 if th else 4
+
+    def fam(ctx, i):
+        return ctx.pick('fam%d' % i, CAP_FAMS)
+
     shapes = {'free': lambda ctx: sym(ctx, 'v', ctx.pick('n', rng(0, top)))}
     if code == Capability.CODE.HOSTNAME:
         def text2(ctx):
@@ -504,21 +517,45 @@ def cap_shapes(code, th):
     elif code == Capability.CODE.MULTIPROTOCOL:
         shapes = {'free': lambda ctx: sym(ctx, 'v', ctx.pick('n', (0, 3, 4, 5) + ((8,) if th else ())))}
     elif code == Capability.CODE.ADD_PATH:
-        shapes = {'free': lambda ctx: sym(ctx, 'v', ctx.pick('n', (0, 3, 4) + ((5, 8) if th else ())))}
+        def entries(ctx):
+            out = []
+            for i in range(ctx.pick('k', (1, 2))):
+                a, f = fam(ctx, i)
+                out += be(a, 2) + [f] + sym(ctx, 'sr%d' % i, 1)
+            return out
+        shapes = {'entries': entries, 'free': lambda ctx: sym(ctx, 'v', ctx.pick('n', (0, 1, 3)))}
+    elif code == Capability.CODE.PATHS_LIMIT:
+        def entries(ctx):
+            out = []
+            for i in range(ctx.pick('k', (1, 2))):
+                a, f = fam(ctx, i)
+                out += be(a, 2) + [f] + sym(ctx, 'lim%d' % i, 2)
+            return out
+        shapes = {'entries': entries, 'free': lambda ctx: sym(ctx, 'v', ctx.pick('n', (0, 1, 4)))}
     elif code == Capability.CODE.NEXTHOP:
-        shapes = {'free': lambda ctx: sym(ctx, 'v', ctx.pick('n', (0, 5, 6, 7) + ((12,) if th else ())))}
+        def entries(ctx):
+            out = []
+            for i in range(ctx.pick('k', (1, 2))):
+                a, f = fam(ctx, i)
+                out += be(a, 2) + sym(ctx, 'rsv%d' % i, 1) + [f] + be(ctx.pick('nh%d' % i, (1, 2, 99)), 2)
+            return out
+        shapes = {'entries': entries, 'free': lambda ctx: sym(ctx, 'v', ctx.pick('n', (0, 1, 5)))}
     elif code == Capability.CODE.GRACEFUL_RESTART:
-        shapes = {'free': lambda ctx: sym(ctx, 'v', ctx.pick('n', (0, 1, 2, 5, 6) + ((7, 10) if th else ())))}
+        def entries(ctx):
+            out = sym(ctx, 'rt', 2)
+            for i in range(ctx.pick('k', (0, 1, 2))):
+                a, f = fam(ctx, i)
+                out += be(a, 2) + [f] + sym(ctx, 'fl%d' % i, 1)
+            return out
+        shapes = {'entries': entries, 'free': lambda ctx: sym(ctx, 'v', ctx.pick('n', (0, 1, 3, 5)))}
     return shapes
 
 
 def h_cap(ctx, code, shape_name, builder, twice=False):
     w = A.world(True)
     if code is None:
-        known = sorted(int(c) for c in Capability.registered_capability)
-        c = ctx.int('code', 0, 255)
-        ctx.assume(s_and(*[c != k for k in known if k <= 255]), 'the unknown capability code is not a registered one')
-        codes = [c]
+        known = set(int(c) for c in Capability.registered_capability)
+        codes = [ctx.pick('code', [c for c in (0, 99, 200, 254) if c not in known][:3])]
     else:
         codes = [code]
     value = builder(ctx)
@@ -977,8 +1014,6 @@ def h_oneline(ctx, n):
     chars = [SChar(ctx, 'cp%d' % i) for i in range(n)]
     bad = tables()['bad']
     if not ctx.sym:
-        for c in chars:
-            c.isprintable()     # same forks as the symbolic run
         text = ''.join(chr(c.cp) for c in chars)
         import exabgp.reactor.api.response.text as mod
         out = mod.oneline(text)
@@ -1057,6 +1092,8 @@ def units(tier):
                 cover += ['%s:%s' % (p[0], c) for c in p[4] if c in ('decoded', 'refused')]
             weight = sum(p[5].get('weight', 10) for p in chunk)
             uname = 'upd/attr/%s' % head + ('' if len(chunks) == 1 else '/%d' % ci)
+            if head == '2':
+                weight = 2000    # thousands of paths (AS_PATH truncations): started first
             us.append(Unit(uname, lambda ctx, chunk=chunk: h_attr(ctx, chunk), must_cover=tuple(cover), weight=weight,
                            max_seconds=T, max_paths=60000, reset=reset, hash_const=True))
     us.append(Unit('upd/attr/unknown', lambda ctx: h_unknown_attr(ctx, th), must_cover=('unknown:transitive', 'unknown:non-transitive'),
@@ -1075,7 +1112,7 @@ def units(tier):
             if not any(R.fam_name(AFI.from_int(a), SAFI.from_int(s)) == fam for a, s in ap):
                 continue
         cover = tuple(c for c in u.must_cover if c in ('decoded', 'refused'))
-        us.append(Unit('upd/nlri/' + u.name[len('dec/nlri/'):], wrap_c15_nlri(u.fn), must_cover=cover, weight=u.weight, max_seconds=T,
+        us.append(Unit('upd/nlri/' + u.name[len('dec/nlri/'):], wrap_c15_nlri(u.fn), must_cover=cover, weight=1500 if u.name.endswith('evpn/type2') else u.weight, max_seconds=T,
                        max_paths=u.max_paths, reset=reset, hash_const=True))
     us.append(Unit('upd/eor', h_eor, must_cover=('eor',), weight=10, max_seconds=T, reset=reset, hash_const=True))
 
@@ -1084,8 +1121,9 @@ def units(tier):
         if int(code) > 255:
             continue
         for sname, builder in cap_shapes(int(code), th).items():
+            shapes = cap_shapes(int(code), th)
             us.append(Unit('open/cap-%d/%s' % (int(code), sname), lambda ctx, c=int(code), s=sname, b=builder: h_cap(ctx, c, s, b),
-                           must_cover=('decoded',), weight=20 if sname == 'free' else 60, max_seconds=T, reset=reset))
+                           must_cover=('decoded',) if sname != 'free' or len(shapes) == 1 else (), weight=20 if sname == 'free' else 60, max_seconds=T, reset=reset))
     us.append(Unit('open/cap-unknown', lambda ctx: h_cap(ctx, None, 'free', lambda c: sym(c, 'v', c.pick('n', rng(0, 4)))),
                    must_cover=('decoded',), weight=20, max_seconds=T, reset=reset))
     us.append(Unit('open/cap-73/twice', lambda ctx: h_cap(ctx, int(Capability.CODE.HOSTNAME), 'twice', lambda c: [1] + sym(c, 'h', 1) + [0], twice=True),
